@@ -276,10 +276,11 @@ func (fe *FnEnc) findLocal(name string, l *Loop) *ssa.Alloc {
 	}
 	// name#k is the k-th declaration of the name in source order (not in block order, which depends on how the
 	// control flow graph was built)
-	sort.SliceStable(cands, func(i, j int) bool { return cands[i].Pos() < cands[j].Pos() })
 	if want > 0 {
-		if want <= len(cands) {
-			return cands[want-1]
+		byPos := append([]*ssa.Alloc{}, cands...)
+		sort.SliceStable(byPos, func(i, j int) bool { return byPos[i].Pos() < byPos[j].Pos() })
+		if want <= len(byPos) {
+			return byPos[want-1]
 		}
 		return nil
 	}
